@@ -217,7 +217,8 @@ TrCheck ==
          \* (Per-entry caches can combine entries read from different versions of the store, so a
          \*  stale-permitted decision need not be the reference value of any single version; such
          \*  answers are counted, not judged.  versions is kept for reporting.)
-         staleOK == "stale" \in DOMAIN Ev1 /\ Ev1.stale = "ok" /\ Ev1.got \in {"T", "F"}
+         \* (a stale-permitted request may also fail on a condition of a tuple that only an older version holds)
+         staleOK == "stale" \in DOMAIN Ev1 /\ Ev1.stale = "ok" /\ (Ev1.got \in {"T", "F"} \/ (Ev1.got = "ERR" /\ Ev1.errk = "cond"))
      IN
      IF c[1] \notin OKs /\ staleOK THEN Judge("OK_STALE_PERMITTED", c[2], Ev1.eng)
      ELSE IF "solo" \in DOMAIN Ev1 /\ Ev1.solo # Ev1.got /\ c[1] \in OKs
@@ -365,7 +366,7 @@ LORef(M, TS, ev) ==
 TrListObjects ==
   /\ IsEvent("ListObjects")
   /\ LET c == ListObjectsClass(model, AllTuples(Ev1), Ev1)
-         staleOK == "stale" \in DOMAIN Ev1 /\ Ev1.stale = "ok" /\ ~Ev1.err
+         staleOK == "stale" \in DOMAIN Ev1 /\ Ev1.stale = "ok" /\ (~Ev1.err \/ Ev1.errk = "cond")
      IN IF c[1] \notin OKs /\ staleOK THEN Judge("OK_STALE_PERMITTED", c[2], Ev1.eng)
         ELSE IF c[1] \notin OKs /\ Restamped(Ev1) /\ ~Ev1.err THEN Judge("KF_ListObjectsIgnoresInvalidation", c[2], Ev1.eng)
         ELSE IF c[1] \in OKs /\ ~NativeSame(Ev1) THEN Judge("BAD_DIFFERS_FROM_NATIVE", ToString(Ev1.native), Ev1.eng)
